@@ -14,12 +14,22 @@ structure Inv (s : Sys) : Prop where
 theorem inv_init (n : Nat) : Inv (init n) := by
   refine ⟨by simp [init, KeysNodup, ownKeys], ⟨?_, ?_, ?_, ?_⟩, ?_, ?_⟩ <;> simp [init, ownKeys]
 
+/-- The ids a step passes to `close_resource`, in order: the cleanup of the processes a
+`ProcessResults` reports, of a process whose `ProcessExited` arrives, and of an already terminated
+target of a delivery. -/
+def closedBy (s : Sys) : Event → List Rid
+  | .results _ rs => cleanupList s.env.owner (classify s.env.persistent rs)
+  | .exited p => ownedBy s.env.owner p
+  | .send _ t v => deliverClosed s.env t v
+  | _ => []
+
 /-- The backend invariant survives every event (no hypothesis on the event). -/
 theorem step_binv (s : Sys) (ev : Event) (h : BInv s.env.backend) : BInv (step s ev).env.backend := by
   cases ev with
   | start => exact h
   | terminate p => exact h
-  | send a t v => simpa [step] using h
+  | exited p => simp only [step, handleProcessExited_backend]; exact h.closeAll _
+  | send a t v => simp only [step, handleDeliver_backend]; exact h.closeAll _
   | spawn c caps arg => simpa [step] using h
   | request p e w =>
     simp only [step, handleEffectRequest_backend]
@@ -38,7 +48,8 @@ theorem step_nextRid_mono (s : Sys) (ev : Event) :
   cases ev with
   | start => exact Nat.le_refl _
   | terminate p => exact Nat.le_refl _
-  | send a t v => simp [step]
+  | exited p => simp only [step, handleProcessExited_backend, closeAll_nextRid]; exact Nat.le_refl _
+  | send a t v => simp only [step, handleDeliver_backend, closeAll_nextRid]; exact Nat.le_refl _
   | spawn c caps arg => simp [step]
   | request p e w =>
     simp only [step, handleEffectRequest_backend]
@@ -53,23 +64,47 @@ theorem step_nextRid_mono (s : Sys) (ev : Event) :
     exact Nat.le_refl _
 
 theorem step_closeCalls (s : Sys) (ev : Event) :
-    (step s ev).env.backend.closeCalls =
-      match ev with
-      | .results _ rs =>
-        s.env.backend.closeCalls ++ cleanupList s.env.owner (classify s.env.persistent rs)
-      | _ => s.env.backend.closeCalls := by
+    (step s ev).env.backend.closeCalls = s.env.backend.closeCalls ++ closedBy s ev := by
   cases ev with
-  | start => rfl
-  | terminate p => rfl
-  | send a t v => simp [step]
-  | spawn c caps arg => simp [step]
+  | start => simp [step, closedBy]
+  | terminate p => simp [step, closedBy]
+  | exited p => simp only [step, handleProcessExited_backend, closeAll_closeCalls, closedBy]
+  | send a t v => simp only [step, handleDeliver_backend, closeAll_closeCalls, closedBy]
+  | spawn c caps arg => simp [step, closedBy]
   | request p e w =>
-    simp only [step, handleEffectRequest_backend]
+    simp only [step, handleEffectRequest_backend, closedBy, List.append_nil]
     split
     · rfl
     · exact execute_closeCalls _ _ _ _
-  | completions n => simp only [step, handleCompletions_backend, processCompletions_closeCalls]
-  | results a rs => simp only [step, handleProcessResults_backend, closeAll_closeCalls]
+  | completions n =>
+    simp only [step, handleCompletions_backend, processCompletions_closeCalls, closedBy, List.append_nil]
+  | results a rs => simp only [step, handleProcessResults_backend, closeAll_closeCalls, closedBy]
+
+theorem deliverClosed_sub (s : Env) (t : Pid) (v : Val) {r : Rid} (h : r ∈ deliverClosed s t v) :
+    r ∈ ownKeys (insertAll s.owner v.resources t) := by
+  unfold deliverClosed at h
+  split at h
+  · exact (ownedBy_sublist_keys _ _).subset h
+  · cases h
+
+/-- Every id a step passes to `close_resource` is registered before the step, or (delivery to a
+terminated process) arrives with the message. -/
+theorem closedBy_sub {s : Sys} (hk : KeysNodup s.env.owner) (ev : Event) {r : Rid} (h : r ∈ closedBy s ev) :
+    r ∈ ownKeys s.env.owner ∨ ∃ a t v, ev = .send a t v ∧ r ∈ v.resources := by
+  cases ev with
+  | results a rs => exact .inl (cleanupList_sub_keys hk h)
+  | exited p => exact .inl ((ownedBy_sublist_keys _ _).subset h)
+  | send a t v =>
+    have := deliverClosed_sub s.env t v h
+    rw [mem_ownKeys_insertAll] at this
+    rcases this with h1 | h1
+    · exact .inr ⟨a, t, v, rfl, h1⟩
+    · exact .inl h1
+  | start => cases h
+  | terminate p => cases h
+  | spawn c caps arg => cases h
+  | request p e w => cases h
+  | completions n => cases h
 
 theorem inv_step {s : Sys} (hs : Inv s) (ev : Event) (hev : handlesExist s ev = true) : Inv (step s ev) := by
   have hmono := step_nextRid_mono s ev
@@ -79,7 +114,9 @@ theorem inv_step {s : Sys} (hs : Inv s) (ev : Event) (hev : handlesExist s ev = 
     cases ev with
     | start => exact hs.keys
     | terminate p => exact hs.keys
-    | send a t v => simp only [step, handleDeliver_owner]; exact hs.keys.insertAll _ _
+    | exited p => simp only [step, handleProcessExited_owner]; exact hs.keys.eraseAll _
+    | send a t v =>
+      simp only [step, handleDeliver_owner]; exact (hs.keys.insertAll _ _).eraseAll _
     | spawn c caps arg => simp only [step, handleSpawn_owner]; exact hs.keys.insertAll _ _
     | completions n => simp only [step, handleCompletions_owner]; exact hs.keys.regAll _
     | request p e w =>
@@ -96,10 +133,14 @@ theorem inv_step {s : Sys} (hs : Inv s) (ev : Event) (hev : handlesExist s ev = 
     cases ev with
     | start => exact hs.keys_lt r hr
     | terminate p => exact hs.keys_lt r hr
+    | exited p =>
+      simp only [step, handleProcessExited_owner, mem_ownKeys_eraseAll] at hr
+      simp only [step, handleProcessExited_backend, closeAll_nextRid]
+      exact hs.keys_lt r hr.1
     | send a t v =>
-      simp only [step, handleDeliver_owner, mem_ownKeys_insertAll] at hr
-      simp only [step, handleDeliver_backend]
-      rcases hr with hr | hr
+      simp only [step, handleDeliver_owner, mem_ownKeys_eraseAll, mem_ownKeys_insertAll] at hr
+      simp only [step, handleDeliver_backend, closeAll_nextRid]
+      rcases hr.1 with hr | hr
       · simp only [handlesExist, List.all_eq_true, decide_eq_true_eq] at hev
         exact hev r hr
       · exact hs.keys_lt r hr
@@ -138,19 +179,13 @@ theorem inv_step {s : Sys} (hs : Inv s) (ev : Event) (hev : handlesExist s ev = 
       exact hs.keys_lt r hr.1
   · -- calls_lt
     intro r hr
-    rw [hcalls] at hr
-    cases ev with
-    | results a rs =>
-      simp only [List.mem_append] at hr
-      rcases hr with hr | hr
-      · exact Nat.lt_of_lt_of_le (hs.calls_lt r hr) hmono
-      · exact Nat.lt_of_lt_of_le (hs.keys_lt r (cleanupList_sub_keys hs.keys hr)) hmono
-    | start => exact Nat.lt_of_lt_of_le (hs.calls_lt r hr) hmono
-    | terminate p => exact Nat.lt_of_lt_of_le (hs.calls_lt r hr) hmono
-    | send a t v => exact Nat.lt_of_lt_of_le (hs.calls_lt r hr) hmono
-    | spawn c caps arg => exact Nat.lt_of_lt_of_le (hs.calls_lt r hr) hmono
-    | request p e w => exact Nat.lt_of_lt_of_le (hs.calls_lt r hr) hmono
-    | completions n => exact Nat.lt_of_lt_of_le (hs.calls_lt r hr) hmono
+    rw [hcalls, List.mem_append] at hr
+    rcases hr with hr | hr
+    · exact Nat.lt_of_lt_of_le (hs.calls_lt r hr) hmono
+    · rcases closedBy_sub hs.keys ev hr with hk | ⟨a, t, v, rfl, hm⟩
+      · exact Nat.lt_of_lt_of_le (hs.keys_lt r hk) hmono
+      · simp only [handlesExist, List.all_eq_true, decide_eq_true_eq] at hev
+        exact Nat.lt_of_lt_of_le (hev r hm) hmono
 
 /-- Handles exist along the whole history. -/
 def handlesFrom (s : Sys) : List Event → Bool
